@@ -31,8 +31,11 @@ var defaultRedirects = map[string]string{
 	"sort.Slice":                         "golang.org/x/telemetry/internal/vrt.SortSlice",
 	"sort.SliceStable":                   "golang.org/x/telemetry/internal/vrt.SortSlice",
 	"sort.Strings":                       "golang.org/x/telemetry/internal/vrt.SortStrings",
+	"sort.Sort":                          "golang.org/x/telemetry/internal/vrt.SortInterface",
+	"sort.Stable":                        "golang.org/x/telemetry/internal/vrt.SortInterface",
 	"time.Now":                           "golang.org/x/telemetry/internal/vrt.Now",
 	"html.EscapeString":                  "golang.org/x/telemetry/internal/vrt.EscapeString",
+	"unicode.IsSpace":                    "golang.org/x/telemetry/internal/vrt.IsSpaceRune",
 	"runtime/debug.ReadBuildInfo":        "golang.org/x/telemetry/internal/vrt.ReadBuildInfo",
 }
 
@@ -448,6 +451,11 @@ func (e *Engine) initIntrinsics() {
 	in["errors.Is"] = func(p *Path, fn *ssa.Function, args []Value) Value { return p.errorsIs(args[0].(*Iface), args[1].(*Iface)) }
 	in["fmt.Sscanf"] = func(p *Path, fn *ssa.Function, args []Value) Value {
 		f, _ := strConcrete(args[1].(*Str))
+		if f == "v%d.%d.%d" {
+			vs := p.variadic(args[2])
+			h := p.eng.findFunc("golang.org/x/telemetry/internal/vrt.ScanSemver")
+			return p.callFunction(h, []Value{args[0], vs[0].V, vs[1].V, vs[2].V}, nil)
+		}
 		if f != "sentinel %x" {
 			panic(p.unsupported("fmt.Sscanf with format %q", f))
 		}
@@ -469,6 +477,10 @@ func (e *Engine) initIntrinsics() {
 			p.goPanicRuntime("nil *regexp.Regexp")
 		}
 		const datePat = `(\d\d\d\d-\d\d-\d\d)[.]json$`
+		if re.Obj.Name == "regexp:"+"^-(go.+)\\.[^.]+-[^.]+$" {
+			h := p.eng.findFunc("golang.org/x/telemetry/internal/vrt.GoVersionREFind")
+			return p.callFunction(h, []Value{args[1]}, nil)
+		}
 		if re.Obj.Name != "regexp:"+datePat {
 			panic(p.unsupported("regexp %q has no model", re.Obj.Name))
 		}
